@@ -24,11 +24,11 @@ import (
 )
 
 type editEvent struct {
-	K        string `json:"k"`        // reencode | edit
+	K        string `json:"k"` // reencode | edit
 	Doc      string `json:"doc"`
-	Kind     string `json:"kind"`     // style or edit kind
+	Kind     string `json:"kind"` // style or edit kind
 	Path     string `json:"path"`
-	Parse    bool   `json:"parse"`    // the text parsed into an envelope
+	Parse    bool   `json:"parse"` // the text parsed into an envelope
 	Panic    bool   `json:"panic"`
 	Changed  bool   `json:"changed"`  // the parsed document's logical content differs from the original
 	Validate string `json:"validate"` // outcome of Validate on the parsed envelope
